@@ -55,7 +55,7 @@ def simulate(L, K, lines, thrown=()):
     def scribbled(t, ctor=False):
         """moved-from instrumented objects are filled with 0xEE: by the move ASSIGNMENT of TTrk,
         by the move CONSTRUCTOR of TTrk and TTrkC"""
-        tys = (lay.TTRK, lay.TTRKC) if ctor else (lay.TTRK, lay.TTRKMA)
+        tys = (lay.TTRK, lay.TTRKC, lay.TTRKMC) if ctor else (lay.TTRK, lay.TTRKMA)
         return tuple(tuple((238,) * p.size for _ in f) if p.ty in tys else f for f, p in zip(t, L))
 
     def shape(t):
@@ -1192,14 +1192,14 @@ def oracle_C06_relocation(L, K, lines, steps, spec):
             before = spec[i - 1]["slots"].get(a[0])
             if before is None or a[1] <= before.cap:
                 continue
-            src, kinds = before, ("MC",)
+            src, kinds, mv = before, ("MC",), True
         elif op in ("copyctor", "copyassign") and a[0] != a[1]:
-            src, kinds = spec[i - 1]["slots"].get(a[1]), ("CC",)
+            src, kinds, mv = spec[i - 1]["slots"].get(a[1]), ("CC",), False
         else:
             continue
         if src is None:
             continue
-        want = sum(len(f) for t in src.elems for f, p in zip(t, L) if lay.ntc(p))
+        want = sum(len(f) for t in src.elems for f, p in zip(t, L) if lay.ntc(p, mv))
         got = sum(1 for e in steps[i]["events"] if e[0] in kinds)
         if got != want:
             v.append("step %d %s: %d objects of non-trivially-constructible types had to be relocated through their constructor, %d %s events seen" % (i, op, want, got, "/".join(kinds)))
@@ -1212,7 +1212,7 @@ def oracle_C06(L, K, lines, steps, spec):
     v = oracle_C06_relocation(L, K, lines, steps, spec)
     if v:
         return v[:5]
-    if lay.all_triv(L) or any(p.ty == lay.TTRKC for p in L):
+    if all(not lay.ntc(p) and not lay.ntd(p) for p in L) or any(p.ty in (lay.TTRKC, lay.TTRKCC, lay.TTRKMC) for p in L):
         # objects of trivially destructible instrumented types never report their end of
         # life: for such lists the event streams are compared with the model's only
         return v
